@@ -16,7 +16,11 @@ RULE = ("K: per scene (UniformGrid / non-uniform RectilinearGrid, 5..6 cells per
         "grid widths, not read from the detector) and the group identities of the property are evaluated on the "
         "implementation's own outputs (reduced = weighted mean / sum / area sum of spatial, minus = -plus, single = component "
         "of all, closed = signed sum of face detectors, inverse undoes forward). non-trivial = every case (non-uniform "
-        "weights, singleton axes, subsets, inverse ... are counted in the distribution).")
+        "weights, singleton axes, subsets, inverse ... are counted in the distribution). Every non-uniform scene also carries a fixed "
+        "battery of closed-surface detectors (time domain and phasor) whose active axes are NOT a prefix of (0,1,2): a 3-D box "
+        "with explicit axes (1,), (2,), (0,2), (1,2), a box one cell thin along x and one thin along y; every closed-surface "
+        "member (any axes/orientation) is compared with the signed sum of its real face detectors and with an independent numpy "
+        "face sum.")
 
 TOL = 1e-9
 COMP = ("Ex", "Ey", "Ez", "Hx", "Hy", "Hz")
@@ -357,15 +361,31 @@ def group_identities(spec, g, recs, dets):
         if not close(by[("-", True, False)], -by[("+", True, False)]):
             return "single-component reduced '-' is not the negative of '+'"
     elif kind == "closed":
-        faces = 0.0
-        for m, r in zip(mem[2:], recs[2:]):
-            faces += float(r["final"]["poynting_flux"][tl][0])
-        out, inw = recs[0]["final"]["poynting_flux"][tl], recs[1]["final"]["poynting_flux"][tl]
-        if mem[1]["opts"]["axes"] is None:
-            if not close(inw, -out):
-                return "inward closed-surface flux is not the negative of the outward one"
-        if not close(out, np.asarray([faces])):
-            return f"closed-surface flux {out} != signed sum of its face detectors {faces}"
+        n = [b[1] - b[0] for b in grp["box"]]
+        active = [a for a in range(3) if n[a] > 1]
+        face = {}                      # (axis, side) -> reading of the single-plane detector on that face (min: '-', max: '+')
+        for m, r in zip(mem, recs):
+            if m["kind"] == "poynt":
+                a = m["opts"]["fixed_axis"]
+                face[(a, 0 if m["opts"]["direction"] == "-" else 1)] = float(r["final"]["poynting_flux"][tl][0])
+        st = recs[0]["steps"][last]
+        S = np.cross(st["E"], st["H"], axis=0)
+        for m, r in zip(mem, recs):
+            if m["kind"] != "closed":
+                continue
+            axes = m["opts"]["axes"] if m["opts"]["axes"] is not None else active
+            sgn_o = -1.0 if m["opts"]["orientation"] == "inward" else 1.0
+            got = r["final"]["poynting_flux"][tl]
+            by_faces = sgn_o * sum(face[(a, 0)] + face[(a, 1)] for a in axes if n[a] > 1)
+            w = [S[a] * area[a] for a in range(3)]
+            by_numpy = sgn_o * sum(float(np.take(w[a], -1, axis=a).sum() - np.take(w[a], 0, axis=a).sum()) for a in axes)
+            scale = max(abs(face[k]) for k in face) if face else 1e-300
+            if abs(float(got[0]) - by_faces) > TOL * max(scale, abs(by_faces)):
+                return (f"closed-surface flux {got} (orientation={m['opts']['orientation']}, axes={m['opts']['axes']}, box sizes {n}) "
+                        f"!= signed sum of its face detectors {by_faces}")
+            if abs(float(got[0]) - by_numpy) > TOL * max(scale, abs(by_numpy)):
+                return (f"closed-surface flux {got} (orientation={m['opts']['orientation']}, axes={m['opts']['axes']}, box sizes {n}) "
+                        f"!= independently computed signed sum of face fluxes {by_numpy}")
     elif kind == "phasor":
         Sf, Rf, Si, Ri = (r["final"]["phasor"][0] for r in recs)
         sel = ix(mem[1]["opts"]["components"])
@@ -380,6 +400,7 @@ def group_identities(spec, g, recs, dets):
         n = [b[1] - b[0] for b in grp["box"]]
         axes = [a for a in range(3) if n[a] > 1]
         tot = np.zeros(P.shape[0])
+        fl_face = {}
         mi = 3
         for a in axes:
             for side, nm in ((0, "min"), (1, "max")):
@@ -388,6 +409,7 @@ def group_identities(spec, g, recs, dets):
                     return f"stored face (axis {a}, {nm}) != the PhasorDetector record on that face"
                 pdet = dets[(g, mi)]
                 fl = np.asarray(pdet.compute_poynting_flux({"phasor": J()["jnp"].asarray(fc[None])}))
+                fl_face[(a, side)] = fl
                 tot = tot + fl
                 mi += 1
         if not close(recs[0]["net"], tot):
@@ -398,6 +420,26 @@ def group_identities(spec, g, recs, dets):
         for key in recs[0]["final"]:
             if not close(recs[1]["final"][key], sign * recs[0]["final"][key]):
                 return f"closed-surface phasor detector with inverse={mem[1]['opts']['inverse']}: stored face {key} is not {sign:+.0f} x the forward one"
+        # every closed-surface phasor member (any axes subset / orientation): signed sum of the face fluxes, computed
+        # from the face detectors' compute_poynting_flux AND independently with numpy from the spatial phasors
+        half = 0.5 if o["scaling"] == "continuous" else 1.0
+        Sph = np.real(np.cross(P[:, :3], np.conj(P[:, 3:]), axis=1))          # (nf, 3, *n)
+        for m, r in zip(mem, recs):
+            if m["kind"] != "cphasor":
+                continue
+            ax_m = m["opts"]["axes"] if m["opts"]["axes"] is not None else axes
+            sgn_o = -1.0 if m["opts"]["orientation"] == "inward" else 1.0
+            by_faces = sgn_o * sum((fl_face[(a, 0)] + fl_face[(a, 1)] for a in ax_m if n[a] > 1), np.zeros(P.shape[0]))
+            by_numpy = np.zeros(P.shape[0])
+            for a in ax_m:
+                wgt = Sph[:, a] * area[a][None]
+                by_numpy = by_numpy + np.take(wgt, -1, axis=a + 1).sum(axis=(1, 2)) - np.take(wgt, 0, axis=a + 1).sum(axis=(1, 2))
+            by_numpy = sgn_o * half * by_numpy
+            scale = max(float(np.max(np.abs(v))) for v in fl_face.values()) if fl_face else 1e-300
+            for want, how in ((by_faces, "signed sum of its face detectors"), (by_numpy, "independently computed signed sum of face fluxes")):
+                if np.any(np.abs(r["net"] - want) > TOL * max(scale, float(np.max(np.abs(want))))):
+                    return (f"closed-surface phasor net flux {r['net']} (orientation={m['opts']['orientation']}, axes={m['opts']['axes']}, "
+                            f"box sizes {n}) != {how} {want}")
     return None
 
 
@@ -421,7 +463,7 @@ def subset(rng):
     return rng.shuffle(list(COMP))[:k]
 
 
-def gen_group(rng, kind, shape, T):
+def gen_group(rng, kind, shape, T, fixed=None):
     g = {"kind": kind, "np_seed": rng.np_seed(), "steps": [rng.randint(0, T - 1)]}
     wl = [round(rng.uniform(0.8, 2.0), 3) * 1e-6 for _ in range(rng.randint(1, 2))]
     scaling = rng.choice(["continuous", "pulse"])
@@ -446,7 +488,7 @@ def gen_group(rng, kind, shape, T):
         g["members"] = [mk("+", False, True), mk("-", False, True), mk("+", True, True), mk("-", True, True),
                         mk("+", False, False), mk("+", True, False), mk("-", True, False)]
     elif kind in ("closed", "cphasor"):
-        g["box"] = rand_box(rng, shape, thin=rng.choice([None, None, 0, 1, 2]))
+        g["box"] = [list(b) for b in fixed["box"]] if fixed else rand_box(rng, shape, thin=rng.choice([None, None, 0, 1, 2]))
         n = [b[1] - b[0] for b in g["box"]]
         active = [a for a in range(3) if n[a] > 1]
         sub = rng.choice([None, None, [a for a in range(3) if rng.chance(0.6)]])
@@ -454,8 +496,8 @@ def gen_group(rng, kind, shape, T):
             g["members"] = [{"kind": "closed", "opts": {"orientation": "outward", "axes": None}},
                             {"kind": "closed", "opts": {"orientation": "inward", "axes": sub}}]
         else:
-            g["steps"] = sorted(set(rng.randint(0, T - 1) for _ in range(2)))
-            base = {"wavelengths": wl, "scaling": scaling}
+            g["steps"] = sorted(set(rng.randint(0, T - 1) for _ in range(1 if fixed else 2)))
+            base = {"wavelengths": wl[:1] if fixed else wl, "scaling": scaling}
             g["members"] = [{"kind": "cphasor", "opts": dict(base, orientation="outward", axes=None, inverse=False)},
                             {"kind": "cphasor", "opts": dict(base, orientation="inward", axes=None, inverse=rng.chance(0.5))},
                             {"kind": "phasor", "opts": dict(base, reduce=False, components=list(COMP), inverse=False)}]
@@ -469,6 +511,13 @@ def gen_group(rng, kind, shape, T):
                 else:
                     g["members"].append({"kind": "pflux", "box": fb, "opts": dict(base, direction="-" if side == 0 else "+",
                                                                                     fixed_axis=a, keep_all=False)})
+        # explicit `axes` subsets (appended after the faces): every one is checked against the face fluxes
+        for sub_axes in (fixed["variants"] if fixed else []):
+            orient = rng.choice(["outward", "inward"])
+            if kind == "closed":
+                g["members"].append({"kind": "closed", "opts": {"orientation": orient, "axes": list(sub_axes)}})
+            else:
+                g["members"].append({"kind": "cphasor", "opts": dict(base, orientation=orient, axes=list(sub_axes), inverse=False)})
     elif kind == "phasor":
         g["box"] = rand_box(rng, shape)
         g["steps"] = sorted(set(rng.randint(0, T - 1) for _ in range(2)))
@@ -490,8 +539,33 @@ def gen_scene(rng, grid, per_kind, kinds=KINDS):
     shape = [rng.randint(5, 6) for _ in range(3)]
     T = 4
     widths = [[round(rng.uniform(0.6, 1.7), 3) for _ in range(shape[a])] for a in range(3)] if grid == "nonuniform" else None
-    groups = [gen_group(rng, k, shape, T) for k in kinds for _ in range(per_kind)]
+    battery = grid == "nonuniform"
+    groups = [gen_group(rng, k, shape, T) for k in kinds for _ in range(per_kind)
+              if not (battery and per_kind == 1 and k in ("closed", "cphasor"))]
+    if battery:
+        groups += battery_groups(rng, shape, T)
     return {"shape": shape, "grid": grid, "widths": widths, "T": T, "groups": groups}
+
+
+NON_PREFIX_AXES = [[1], [2], [0, 2], [1, 2]]
+
+
+def battery_groups(rng, shape, T):
+    """always present on a non-uniform grid: closed-surface detectors (time domain and phasor) whose active axes are NOT a
+    prefix of (0,1,2): a 3-D box with every non-prefix explicit `axes` subset, a box one cell thin along x, one thin along y"""
+    def box(sizes):
+        out = []
+        for a in range(3):
+            s0 = rng.randint(0, shape[a] - sizes[a])
+            out.append([s0, s0 + sizes[a]])
+        return out
+    b3, bx, by = box([2, 3, 2]), box([1, 2, 3]), box([3, 1, 2])
+    out = []
+    for kind in ("closed", "cphasor"):
+        out.append(gen_group(rng, kind, shape, T, fixed={"box": b3, "variants": NON_PREFIX_AXES}))
+        out.append(gen_group(rng, kind, shape, T, fixed={"box": bx, "variants": []}))
+        out.append(gen_group(rng, kind, shape, T, fixed={"box": by, "variants": [[2, 0, 1]] if kind == "closed" else []}))
+    return out
 
 
 def eval_scene(ctx, spec, with_model=True):
@@ -542,7 +616,10 @@ def run(ctx):
     if ctx.thorough:
         scenes = [("nonuniform", per), ("uniform", per), ("nonuniform", per), ("direct", 2)] * 3
     for grid, pk in scenes:
-        kinds = KINDS if (grid != "direct" or ctx.thorough) else ["field", "energy", "poynt", "closed", "cphasor"]
+        kinds = KINDS
+        if not ctx.thorough:      # quick: the non-uniform scene carries the closed-surface battery; keep the other two lean
+            kinds = ["field", "energy", "poynt", "closed", "cphasor"] if grid == "direct" else (
+                ["field", "energy", "poynt", "closed", "phasor"] if grid == "uniform" else KINDS)
         spec = gen_scene(ctx.rng, grid, pk, kinds)
         fails = eval_scene(ctx, spec)
         if fails:
